@@ -53,6 +53,14 @@ TWINS = [  # two literals / terms of one predicate and polarity that a permutati
 ]
 
 
+AS_DECLARED = [
+    ("(and (>= (g ?a) 1) (p ?a))", "(and (decrease (g ?a) 1) (increase (h ?a ?b) 1))"),
+    ("(and (< (h ?a ?b) (g ?a)))", "(and (assign (h ?a ?b) (g ?a)) (when (p ?a) (increase (g ?a) (h ?a ?b))))"),
+    ("(and (q ?a ?b) (or (p ?a) (>= (g ?a) 2)))", "(and (not (q ?a ?b)) (q ?b ?a) (decrease (g ?a) (g ?b)))"),
+    ("(and (m ?a))", "(and (forall (?z - t1) (when (q ?a ?z) (increase (g ?a) 1))) (not (m ?a)))"),
+]
+
+
 def renamings(params):
     fresh = ["?u", "?v", "?k"]
     out = [("identity", {p: p for p in params}), ("fresh", {p: f for p, f in zip(params, fresh)})]
@@ -95,6 +103,13 @@ def cases(tier):
             progs.append(q)
     for pre, eff in TWINS:
         progs.append(vdom.program("xy", pre, eff, ["twins"]))
+    # parameters named like the variables of the :predicates / :functions declarations (?a ?b): terms spelled exactly as
+    # declared, several times in one action
+    for pre, eff in AS_DECLARED:
+        text = (f"(define (domain v)\n{vdom.header('typed')}\n(:action a\n :parameters (?a - t1 ?b - t1)\n"
+                f" :precondition {pre}\n :effect {eff}))\n")
+        progs.append({"domain": text, "objects": dict(vdom.OBJECTS), "profile": "ab", "pre": pre, "eff": eff,
+                      "tags": ["as-declared"], "header": "typed"})
     for pre, eff in THREE:
         text = (f"(define (domain v)\n{vdom.header('typed')}\n(:action a\n :parameters ({P3})\n"
                 f" :precondition {pre}\n :effect {eff}))\n")
